@@ -13,6 +13,7 @@ Results are merged into <seeded dir>/meta.json.  Equivalent on the real tree:
 """
 import json
 import os
+import shutil
 import subprocess
 import sys
 import time
@@ -87,8 +88,9 @@ def main():
         print(json.dumps(meta["confirmed"]), json.dumps(meta["check"])[:600])
     finally:
         sh(["git", "-C", "/repo", "worktree", "remove", "--force", wt])
-        # regenerate Gen files from the real tree (the check rewrote them from the patched tree)
-        sh(["/venv/bin/python", os.path.join(ROOT, "tools", "regen_all.py")], cwd=ROOT, timeout=3600)
+        # the check ran in its own copy of the Lean project (vlib/common.py: BEMPP_REPO => /tmp/verif-lean-<tree>)
+        import re
+        shutil.rmtree("/tmp/verif-lean-" + re.sub(r"[^A-Za-z0-9]+", "_", wt).strip("_"), ignore_errors=True)
 
 
 if __name__ == "__main__":
